@@ -75,6 +75,7 @@ func billCalcSrcConfig() *G2LConfig {
 		Namespace: "GoblVerif.Generated.BillCalcSrc",
 		Title:     "BillCalcSrc: the calculation functions of /repo/bill (line_calculate.go, discounts.go, charges.go, totals.go, payment_details.go) translated from Go.",
 		Imports:   []string{"GoblVerif.Model.Calc", "GoblVerif.Model.CalcSrc", "GoblVerif.Model.GoSem", "GoblVerif.Generated.PayCalcSrc"},
+		Effects:   true,
 		Context:   billCalcContext,
 		Structs: map[string]G2LStruct{
 			"Totals": {Lean: "GoblVerif.Calc.Totals", Fields: map[string]string{
@@ -146,6 +147,7 @@ func payCalcSrcConfig() *G2LConfig {
 		Namespace: "GoblVerif.Generated.PayCalcSrc",
 		Title:     "PayCalcSrc: (*Advance).CalculateFrom and (*Terms).CalculateDues of /repo/pay (advance.go, terms.go) translated from Go.",
 		Imports:   []string{"GoblVerif.Model.Calc", "GoblVerif.Model.CalcSrc", "GoblVerif.Model.GoSem"},
+		Effects:   true,
 		Context:   billCalcContext,
 		Structs: map[string]G2LStruct{
 			"Advance": {Lean: "GoblVerif.Calc.Advance", Fields: map[string]string{
